@@ -492,6 +492,10 @@ def run(ctx):
     check_append(ctx, f)
     check_block_sum(ctx, f)
     check_no_limit_sentinel(ctx, f)
+    # "collecting blocks yields exactly the set of the blocks collected": a resources builder keeps what earlier
+    # blocks() calls added
+    K.check_builder_slot_accumulates(ctx, f, "R-GRD", ["repository::resources::ipres::IpResourcesBuilder::blocks",
+                                                       "repository::resources::asres::AsResourcesBuilder::blocks"])
     K.check_bool_table(ctx, f, "R-REG", "ca::provisioning::RequestResourceLimit::is_empty",
                        [(r"^Option::is_none\(self\.asn\)$", "asn"), (r"^Option::is_none\(self\.ipv4\)$", "v4"),
                         (r"^Option::is_none\(self\.ipv6\)$", "v6")],
